@@ -888,7 +888,7 @@ package stack
 
 //@ func nameArguments$1
 //@   requires arg != nil && objects != nil
-//@   modifies mapof(objects)
+//@   modifies mapof(objects); elems(objects[arg.Value].args)
 //@   ensures [visitSkipsNonPointers C15] !arg.IsPtr ==> (forall v uint64 :: dom(objects, v) == old(dom(objects, v)) && objects[v].inPrimary == old(objects[v].inPrimary) && sameslice(objects[v].args, old(objects[v].args)))
 //@   ensures [visitRecordsPointer C15] arg.IsPtr ==> dom(objects, arg.Value) && len(objects[arg.Value].args) >= 1 && objects[arg.Value].args[len(objects[arg.Value].args) - 1] == arg
 //@   ensures [visitAppendsToKnownValue C15] arg.IsPtr && old(dom(objects, arg.Value)) ==> len(objects[arg.Value].args) == old(len(objects[arg.Value].args)) + 1
@@ -977,6 +977,7 @@ package stack
 // findRoots promises about the roots it records is stated on findRoots.
 //@ func splitPath
 //@   modifies nothing
+//@   loop 0: invariant out == nil || fresh(out)
 //@ func isFile
 //@   option assumed
 //@   modifies nothing
